@@ -11,6 +11,12 @@ use serde_json::json;
 const S: i64 = 1_000_000_000;
 
 pub fn run_case(ctx: &mut CaseCtx) -> CaseResult {
+    // controlled schedules of the background cleanup thread against the logging thread
+    // (p_c07s.rs): every 48th case; in the thorough tier shards 8-15 spend half their cases on it
+    let sched_heavy = ctx.thorough && ctx.shard >= 8;
+    if (sched_heavy && ctx.case % 2 == 1) || (!sched_heavy && ctx.case % 48 == 7) {
+        return crate::p_c07s::run_case(ctx);
+    }
     let rng = &mut ctx.rng;
     let naming = flw::gen_naming(rng, true);
     let (mut names, _) = flw::gen_name_parts(rng, &ctx.dir, naming, false);
